@@ -64,7 +64,7 @@ pub fn open_fds() -> usize {
 impl World {
     /// `mode`: the server's mode (the client gets tcp_and_udp when udp is asked for)
     #[allow(clippy::too_many_arguments)]
-    pub fn start(protocol: &str, cipher: &str, server_password: &str, client_password: &str, users: &[(String, String)], mode: &str, ws: bool, link: bool, threads: usize, tls: Option<&str>) -> anyhow::Result<World> {
+    pub fn start(protocol: &str, cipher: &str, server_password: &str, client_password: &str, users: &[(String, String)], mode: &str, client_mode: Option<&str>, ws: bool, link: bool, threads: usize, tls: Option<&str>) -> anyhow::Result<World> {
         // as both `main`s do
         let _ = tokio_rustls::rustls::crypto::aws_lc_rs::default_provider().install_default();
         let rt = tokio::runtime::Builder::new_multi_thread().worker_threads(threads.clamp(2, 16)).enable_all().build()?;
@@ -73,7 +73,7 @@ impl World {
         let link_port = if link { free_port() } else { server_port };
         let users_json: Vec<serde_json::Value> = users.iter().map(|(n, p)| serde_json::json!({"name": n, "password": p})).collect();
         let mut sj = serde_json::json!({"host": "127.0.0.1", "port": server_port, "password": server_password, "protocol": protocol, "cipher": cipher, "mode": mode, "user": users_json});
-        let mut cj = serde_json::json!({"host": "127.0.0.1", "port": link_port, "password": client_password, "protocol": protocol, "cipher": cipher, "mode": mode});
+        let mut cj = serde_json::json!({"host": "127.0.0.1", "port": link_port, "password": client_password, "protocol": protocol, "cipher": cipher, "mode": client_mode.unwrap_or(mode)});
         if ws {
             sj["ws"] = serde_json::json!({"path": "/ws"});
             cj["ws"] = serde_json::json!({"path": "/ws", "header": {"Host": "127.0.0.1"}});
@@ -87,7 +87,8 @@ impl World {
         }
         let scfg: ServerConfig<sv::SslConfig> = serde_json::from_value(sj)?;
         let ccfg: ServerConfig<cv::SslConfig> = serde_json::from_value(cj)?;
-        let udp = mode.contains("udp");
+        // (datagrams of vmess / trojan travel inside the tcp transport: only the client needs a udp socket)
+        let udp = client_mode.unwrap_or(mode).contains("udp");
         let mut tasks = vec![];
         tasks.push(rt.spawn(sv::startup(scfg.clone())));
         let links: Arc<std::sync::Mutex<Vec<tokio::task::AbortHandle>>> = Arc::default();
@@ -225,6 +226,70 @@ impl World {
                 }
             }
             if out.is_empty() { "none".to_owned() } else { out.join(" ") }
+        })
+    }
+
+    pub fn udp_multi(&self, apps: usize, targets: usize, per: usize, seed: u64) -> String {
+        if !self.udp {
+            return "no-udp".to_owned();
+        }
+        self.rt.block_on(udp_multi(self.client_port, apps, targets, per, seed))
+    }
+
+    /// several fresh udp sessions of a bare client against the real server: the (server session id, packet id)
+    /// pairs on the replies — `distinct` when no pair occurs twice and every session got its own server session id
+    pub fn server_ids(&self, sessions: usize, per: usize) -> String {
+        if self.protocol != "shadowsocks" || !self.udp {
+            return "n/a".to_owned();
+        }
+        let sp = self.server_port;
+        let Ok(c) = crate::ssudp::RawClient::new(&self.cipher, &self.client_password) else { return "n/a".to_owned() };
+        let legacy = !self.cipher.starts_with("2022");
+        self.rt.block_on(async move {
+            let Ok(echo) = UdpSocket::bind("127.0.0.1:0").await else { return "no-loopback".to_owned() };
+            let eport = echo.local_addr().unwrap().port();
+            tokio::spawn(async move {
+                let mut buf = vec![0u8; 4096];
+                while let Ok(Ok((l, from))) = tokio::time::timeout(Duration::from_secs(4), echo.recv_from(&mut buf)).await {
+                    let _ = echo.send_to(&buf[..l], from).await;
+                }
+            });
+            let mut pairs: Vec<(u64, u64)> = vec![];
+            let mut ssids: Vec<u64> = vec![];
+            let mut answered = 0;
+            for sidx in 0..sessions {
+                let Ok(sock) = UdpSocket::bind("127.0.0.1:0").await else { return "no-loopback".to_owned() };
+                let csid = 0x1000 + sidx as u64 * 7919 + (sp as u64) << 16;
+                let mut mine = None;
+                for k in 0..per {
+                    let Ok(w) = c.encode(csid, k as u64 + 1, Address::Socket(format!("127.0.0.1:{}", eport).parse().unwrap()), format!("probe-{}-{}", sidx, k).as_bytes()) else { return "encode-failed".to_owned() };
+                    let _ = sock.send_to(&w, ("127.0.0.1", sp)).await;
+                    let mut buf = vec![0u8; 4096];
+                    if let Ok(Ok((l, _))) = tokio::time::timeout(Duration::from_secs(3), sock.recv_from(&mut buf)).await {
+                        if let Some((_, ssid, pid, _)) = c.decode(&buf[..l]) {
+                            answered += 1;
+                            pairs.push((ssid, pid));
+                            mine = Some(ssid);
+                        }
+                    }
+                }
+                if let Some(x) = mine {
+                    ssids.push(x);
+                }
+            }
+            if answered != sessions * per {
+                return format!("answered:{}of{}", answered, sessions * per);
+            }
+            if legacy {
+                return "distinct".to_owned(); // no ids on the wire
+            }
+            let mut p = pairs.clone();
+            p.sort();
+            p.dedup();
+            let mut q = ssids.clone();
+            q.sort();
+            q.dedup();
+            if p.len() == pairs.len() && q.len() == ssids.len() { "distinct".to_owned() } else { format!("reused:pairs{}of{},sessions{}of{}", p.len(), pairs.len(), q.len(), ssids.len()) }
         })
     }
 
@@ -769,6 +834,83 @@ pub async fn udp_flow(client_port: u16, payloads: Vec<Vec<u8>>) -> String {
         }
 }
 
+
+/// `apps` local applications, each sending `per` rounds of datagrams to each of `targets` scripted udp targets
+/// (every target answers `re<k>:` + what it got): every target receives exactly what was addressed to it, every
+/// application gets each answer back labelled with the answering target, and nothing else
+pub async fn udp_multi(client_port: u16, apps: usize, targets: usize, per: usize, seed: u64) -> String {
+    let mut tsocks = vec![];
+    for _ in 0..targets {
+        let Ok(t) = UdpSocket::bind("127.0.0.1:0").await else { return "no-loopback".to_owned() };
+        tsocks.push(Arc::new(t));
+    }
+    let tports: Vec<u16> = tsocks.iter().map(|t| t.local_addr().unwrap().port()).collect();
+    let seen: Arc<Mutex<Vec<Vec<Vec<u8>>>>> = Arc::new(Mutex::new(vec![vec![]; targets]));
+    let mut tasks = vec![];
+    for (k, t) in tsocks.iter().enumerate() {
+        let (t, seen) = (t.clone(), seen.clone());
+        tasks.push(tokio::spawn(async move {
+            let mut buf = vec![0u8; 70000];
+            while let Ok(Ok((l, from))) = tokio::time::timeout(Duration::from_millis(2500), t.recv_from(&mut buf)).await {
+                seen.lock().await[k].push(buf[..l].to_vec());
+                let mut answer = format!("re{}:", k).into_bytes();
+                answer.extend_from_slice(&buf[..l]);
+                let _ = t.send_to(&answer, from).await;
+            }
+        }));
+    }
+    let mut asocks = vec![];
+    for _ in 0..apps {
+        let Ok(a) = UdpSocket::bind("127.0.0.1:0").await else { return "no-loopback".to_owned() };
+        asocks.push(a);
+    }
+    let mut rng = Rng::new(seed);
+    let mut want: Vec<Vec<Vec<u8>>> = vec![vec![]; targets];
+    let (mut down_bad, mut lost) = (0, 0);
+    let mut buf = vec![0u8; 70000];
+    for r in 0..per {
+        for (ai, a) in asocks.iter().enumerate() {
+            for k in 0..targets {
+                let n = [1usize, 20, 300, 1200][(r + ai + k) % 4];
+                let mut payload = format!("a{}t{}r{}:", ai, k, r).into_bytes();
+                payload.extend(rng.bytes(n));
+                let mut d = vec![0u8, 0, 0, 1, 127, 0, 0, 1];
+                d.extend_from_slice(&tports[k].to_be_bytes());
+                let header = d.clone();
+                d.extend_from_slice(&payload);
+                let _ = a.send_to(&d, ("127.0.0.1", client_port)).await;
+                want[k].push(payload.clone());
+                match tokio::time::timeout(Duration::from_secs(3), a.recv_from(&mut buf)).await {
+                    Ok(Ok((l, _))) => {
+                        let expect = [header, format!("re{}:", k).into_bytes(), payload].concat();
+                        if buf[..l] != expect[..] {
+                            down_bad += 1;
+                        }
+                    }
+                    _ => lost += 1,
+                }
+            }
+        }
+    }
+    // nothing else may arrive at any application
+    let mut stray = 0;
+    for a in &asocks {
+        while let Ok(Ok(_)) = tokio::time::timeout(Duration::from_millis(60), a.recv_from(&mut buf)).await {
+            stray += 1;
+        }
+    }
+    for t in tasks {
+        t.abort();
+    }
+    let seen = seen.lock().await.clone();
+    let mut up_bad = 0;
+    for k in 0..targets {
+        if seen[k] != want[k] {
+            up_bad += 1;
+        }
+    }
+    format!("up={} down={} stray={}", if up_bad == 0 { "ok".to_owned() } else { format!("diff:{}targets", up_bad) }, if down_bad == 0 && lost == 0 { "ok".to_owned() } else { format!("diff:{}wrong,{}lost", down_bad, lost) }, stray)
+}
 
 pub fn parse_sizes(s: &str) -> Vec<usize> {
     s.split(',').filter_map(|x| x.parse().ok()).collect()
